@@ -210,6 +210,9 @@ func (t *tsT) leanType(from *tsUnit, ty types.Type, pos token.Pos) string {
 	if s := tspLeanType(ty); s != "" { // io.Writer, []byte (trans_syntax_printer.go)
 		return s
 	}
+	if s := t.tsbLeanType(from, ty, pos); s != "" { // maps, named string and map types, sets, float64 (trans_syntax_bayes.go)
+		return s
+	}
 	switch x := ty.(type) {
 	case *types.Basic:
 		switch {
@@ -476,7 +479,7 @@ func (t *tsT) callees(f *tsFunc) []*tsFunc {
 	ast.Inspect(f.decl.Body, func(n ast.Node) bool {
 		if call, ok := n.(*ast.CallExpr); ok {
 			if fo := tsCalledFunc(f.pkg.info, call); fo != nil {
-				if g := t.funcs[fo.Origin()]; g != nil {
+				if g := t.funcs[fo.Origin()]; g != nil && tsbExternal[fo.Origin().FullName()] == "" {
 					res = append(res, g)
 				}
 			}
@@ -557,6 +560,8 @@ func tsBaseIdent(e ast.Expr) *ast.Ident {
 			e = x.X
 		case *ast.StarExpr:
 			e = x.X
+		case *ast.IndexExpr: // xs[i].f = v, m[k] = v assign to xs, m (trans_syntax_bayes.go)
+			e = x.X
 		case *ast.UnaryExpr:
 			if x.Op != token.AND {
 				return nil
@@ -597,6 +602,7 @@ func (t *tsT) assignedObjs(info *types.Info, nodes ...ast.Node) map[types.Object
 			case *ast.IncDecStmt:
 				mark(x.X)
 			case *ast.CallExpr:
+				tsbMark(info, x, mark)
 				fo := tsCalledFunc(info, x)
 				if fo == nil {
 					return true
@@ -837,7 +843,7 @@ func tsRun(repo string) (map[string]string, []string) {
 		}
 		var b strings.Builder
 		fmt.Fprintf(&b, "/- GENERATED by `harness extract` (harness/trans_syntax*.go) from %s/*.go on every run of bin/check. Do not edit.\n   Meaning of the primitives: lean/Knut/GoSem/Syntax.lean; agreement with the model: lean/Knut/FactsAgree/Trans%s*.lean (TransScanner, TransParser…TransParser4, TransPrinter, TransPrinter2). -/\n", u.pkg, u.mod)
-		b.WriteString("import Knut.GoSem.Basic\nimport Knut.GoSem.Syntax\n")
+		b.WriteString("import Knut.GoSem.Basic\nimport Knut.GoSem.Syntax\n" + tsbImports(u))
 		var imps []string
 		for v := range t.imports[u] {
 			imps = append(imps, "import Knut.Generated.Trans"+v.mod)
